@@ -459,10 +459,15 @@ def c06(ctx):
                 "TLC enumerates every string over the bytes quote, backslash, { } , SP LF 0x01 x up to length L (Parse and ParseND mode) with positions and verdict; "
                 "each is run through findStructuralIndices on BOTH kernel families with the 64-byte seam in front of every byte, partial "
                 "last blocks of every length, and fillers that make the tokens the last/first/stripped entries of a 1408-entry index "
-                "buffer; both must equal the spec (hence each other). M: shift/filler lemmas that justify the placements, monotone "
-                "positions, no structural inside a string. V: generated, mutated and random inputs parsed end to end on both kernels: "
+                "buffer; both must equal the spec (hence each other). M: Stage1Block.tla -- the bit-parallel block algorithm with its three "
+                "carries (the algorithm the assembly implements) equals the transducer on every class string up to the bound for block "
+                "sizes 2, 4 (8); shift/filler lemmas that justify the placements, monotone positions, no structural inside a string. V: generated, mutated and random inputs parsed end to end on both kernels: "
                 "same error, identical tape and string buffer. Non-trivial = string containing a quote or backslash.")
     q = quick(ctx)
+    # M: the bit-parallel block algorithm (odd-backslash arithmetic, prefix-XOR quote mask, pseudo-structural shift, carries)
+    # equals the byte-at-a-time transducer on every input over the byte classes, for several block sizes
+    for b in ((4, 2) if q else (4, 2, 8)):
+        ctx.tlc("MC_Stage1Block", consts={"MaxLen": 5 if q else 7, "B": b}, label="block algorithm B=%d" % b, timeout=3000)
     for cfg, nd in (("MC_Stage1.cfg", False), ("MC_Stage1_nd.cfg", True)):
         r = ctx.tlc("MC_Stage1", cfg=cfg, consts={"MaxLen": 5 if q else 6}, dump="states", label=cfg, timeout=3000)
         args = ["g-stage1", "-dump", r["dump"], "-expect", str(r["distinct"]), "-property", "C06"]
